@@ -333,6 +333,54 @@ def transparency_long_quick(a64: bool, n: int, noise_kind: int, pos: int, varian
     return verdict(ok, nontrivial=nt, sample=sample)
 
 
+def _far_concrete(isa, start, variant, tail):
+    """the same kernel far down in a long file (line numbers around and beyond 1000)"""
+    from harness._pipeline import analyze
+    arch, body, noises, cmt, smark, emark = KERNELS[isa]
+    body = body[:len(body) - tail]          # tail > 0: the selection ends on an instruction that is on a dependency cycle
+    k = (isa, "far", tail)
+    if k not in _BASE:
+        _BASE[k] = _key(analyze("\n".join(body) + "\n", arch, whole=True))
+    pad = [cmt + " filler"] * (start - 1)
+    if variant == 0:      # byte markers
+        pad = pad[:max(0, len(pad) - len(smark))]
+        r = analyze("\n".join(pad + smark + body + emark + ["ret"]) + "\n", arch)
+        first = len(pad) + len(smark) + 1
+    elif variant == 1:    # --lines
+        r = analyze("\n".join(pad + body + ["ret"]) + "\n", arch, lines="%d-%d" % (len(pad) + 1, len(pad) + len(body)))
+        first = len(pad) + 1
+    else:                 # whole file, blank lines in front
+        r = analyze("\n" * (start - 1) + "\n".join(body) + "\n", arch, whole=True)
+        first = start
+    return _key(r) == _BASE[k], first + len(body) - 1 >= 1000, {"isa": isa, "kernel_lines": [first, first + len(body) - 1], "variant": ["byte markers", "--lines", "whole file after blank lines"][variant]}
+
+
+def transparency_far(a64: bool, start: int, variant: int, tail: int) -> bool:
+    """
+    pre: 985 <= start <= 1004 and 0 <= variant < 3 and 0 <= tail <= 3
+    post: _
+    """
+    if skip(locals()):
+        return True
+    lo, hi = shard(20)
+    if not (lo <= start - 985 < hi):
+        return True
+    ok, nt, sample = native(_far_concrete, "aarch64" if a64 else "x86", pick(start - 985, 20) + 985, pick(variant, 3), pick(tail, 4))
+    return verdict(ok, nontrivial=nt, sample=sample)
+
+
+def transparency_far2(a64: bool, start: int, variant: int, tail: int) -> bool:
+    """
+    pre: 0 <= start < 6 and 0 <= variant < 3 and 0 <= tail <= 3
+    post: _
+    """
+    if skip(locals()):
+        return True
+    st = [1500, 1999, 2000, 2001, 3007, 12000][pick(start, 6)]
+    ok, nt, sample = native(_far_concrete, "aarch64" if a64 else "x86", st, pick(variant, 3), pick(tail, 4))
+    return verdict(ok, nontrivial=nt, sample=sample)
+
+
 # ---- the real CLI: marked file vs. every spelling of the same line set with --lines ------------------
 
 def _spellings(first, last):
@@ -417,6 +465,9 @@ CELLS = {
                                 "budget": {"quick": 170}, "shards": 12},
     "transparency_long": {"fn": transparency_long, "tiers": ("thorough",), "bound": "40-44 noise lines (kernel of 48-52 lines) before every line 0-7, bare / byte markers / --lines",
                           "budget": {"thorough": 900}, "shards": 16},
+    "transparency_far": {"fn": transparency_far, "bound": "the same kernels starting at every line 985..1004 of a long file (so that the kernel's line numbers straddle 1000, the LCD search's iteration offset) through byte markers / --lines / a whole file with leading blank lines, with the last 0-3 lines cut off so that the selection ends on an instruction of a dependency cycle",
+                         "budget": {"quick": 170, "thorough": 600}, "shards": 20},
+    "transparency_far2": {"fn": transparency_far2, "tiers": ("thorough",), "bound": "same at start lines 1500, 1999, 2000, 2001, 3007, 12000", "budget": {"thorough": 900}, "shards": 1},
     "transparency_quick": {"fn": transparency_quick, "tiers": ("quick",), "bound": "8-line kernel on zen1 / tx2; noise line (comment, label, directive, blank) inserted at <= 1 symbolic position x 4 input variants (bare, byte markers, comment markers, --lines)", "budget": {"quick": 170}, "shards": 9},
     "transparency": {"fn": transparency, "tiers": ("thorough",), "bound": "noise at every subset of the 8 positions x 4 noise kinds x 4 variants, plus --fixed", "budget": {"thorough": 2400}, "shards": 64},
 }
